@@ -13,5 +13,5 @@ Extraction "model.ml" nv_types_witness
   enc_fmt_chars dec_fmt_chars enc_fmt_char_arrays dec_fmt_char_arrays
   enc_fmt_strings dec_fmt_strings enc_fmt_str_arrays dec_fmt_str_arrays
   build_strings build_contigs get_index get_index_of no_clobber_from PASS
-  enc_record enc_site enc_index enc_indices dec_index dec_indices dec_frame dec_head dec_record dec_fields split_typed dec_record_typed dec_flag
-  bcf_write bcf_read bcf_special content write_line read_eager_text.
+  enc_record enc_record_w enc_site enc_index enc_indices dec_index dec_indices dec_frame dec_head dec_record dec_fields split_typed dec_record_typed dec_flag
+  bcf_write bcf_read bcf_read_into bcf_special content write_line read_eager_text.
